@@ -149,9 +149,9 @@ func (tr *guardTr) intExpr(e ast.Expr) (string, bool) {
 		case token.REM:
 			return "(" + a + " % " + b + ")", ok
 		case token.SHL:
-			return "(" + a + " * 2 ^ (" + b + ").toNat)", ok
+			return "(" + a + " * 2 ^ ((" + b + " : Int)).toNat)", ok
 		case token.SHR:
-			return "(" + a + " / 2 ^ (" + b + ").toNat)", ok
+			return "(" + a + " / 2 ^ ((" + b + " : Int)).toNat)", ok
 		}
 	}
 	return tr.bad(e)
